@@ -20,6 +20,8 @@
      AwaitedToCompletion  a coroutine that is not waiting has no unfinished child; nothing is left on the loop at the end
      ModeConfined         flag off in the driver before and after (also after a failure), on wherever a body runs
      SyncRefused          every executed segment ran with the flag on (where a plain synchronous call must raise RuntimeError)
+   Before the asyncio run the thread may have an asynq-mode history with the functions involved (action Before): the
+   prescribed outcome does not depend on it.
    Entries may carry  trace |-> <<<<t, k>>, ...>>  recorded from the real event loop (k = segment begun, 0 = body left);
    then only that step order is explored, and the entry is exported only if the real order is a behaviour of engine B. *)
 EXTENDS PLang, Json, IOUtils
@@ -81,6 +83,7 @@ Advance(evs) == l' = IF Traced THEN l + Len(evs) ELSE l
    histories lead to the same Start and the prescribed outcome is the same after each of them. *)
 PreKinds == {"none", "created", "computed", "other"}
 Before(kind) == /\ pre = "unset" /\ co[Root].st = "absent"
+                /\ IF "pre" \in DOMAIN Entries[pid] THEN kind = Entries[pid].pre ELSE TRUE     \* a recorded run says which
                 /\ pre' = kind
                 /\ UNCHANGED <<pid, co, cm, l, refused>>
 
@@ -132,7 +135,7 @@ Spec == Init /\ [][Next]_vars
 (* ---- the property, on the model ---- *)
 Live(t) == co[t].st \in {"ready", "waiting"}
 Done == co[Root].st = "done"
-SameOutcome == \A t \in 1..N : co[t].st = "done" => co[t].out = TaskOut(P, t)
+SameOutcome == Done => \A t \in 1..N : co[t].st = "done" => co[t].out = TaskOut(P, t)    \* outcomes never change once set
 AwaitedToCompletion ==
   /\ \A u \in 1..N : Live(u) /\ co[u].par # 0 =>
         co[co[u].par].st = "waiting" /\ u \in Kids(co[u].par, co[co[u].par].pc)
